@@ -192,7 +192,7 @@ func init() {
 			}
 			delays := []int{1500}
 			if ccVirtual {
-				delays = []int{0, 1, 1500}
+				delays = []int{0, 1, 900, 1500, 1900}
 			}
 			for n := -1; n <= 4; n++ {
 				for _, d := range delays {
